@@ -48,7 +48,8 @@ func init() {
 		take("C09", func(id string) bool { return strings.HasPrefix(id, "C09/item-context/") })
 		// the enterprise Prometheus pipes: two goroutines subscribing to one instrumented pipeline
 		if Registry["C19"] != nil {
-			take("C19", func(id string) bool { return strings.HasPrefix(id, "C19/concurrent/") })
+			// (arities 1..3: the 24-operator chain is the same generic function and too slow under the detector)
+			take("C19", func(id string) bool { return strings.HasPrefix(id, "C19/concurrent/") && !strings.HasSuffix(id, "Pipe24") })
 		}
 		return scns
 	}
